@@ -137,6 +137,31 @@ def run(ctx):
               ("precision with decimal in an or rule-set", '5.5 // {or: [{type: "decimal", precision: 1}, {type: "string"}]}', "ok"),
               ("format excludes length in an or rule-set", '"a@b.cc" // {or: [{type: "email", minLength: 1}, {type: "integer"}]}', "err")]
     run_checks(ctx, items)
+    # type references are not combined with foreign rules; every rule appears once, in every order; inside an or rule-set the rules must apply to the alternative's kind
+    TY = [["@A", "1"], ["@B", '"b"']]
+    typed = [("or next to a type-reference shortcut", '@A // {or: ["integer", "string"]}', "err"),
+             ("or next to a type-reference shortcut (property)", '{\n  "p": @A // {or: ["integer", "string"]}\n}', "err"),
+             ("or next to a type rule", '1 // {type: "@A", or: ["integer", "string"]}', "err"),
+             ("rules next to a type-reference shortcut", "@A // {min: 1}", "err"),
+             ("duplicate type on a shortcut", '@A | @B // {type: "integer", type: "mixed"}', "err"),
+             ("duplicate type on a shortcut", '@A | @B // {type: "mixed", type: "integer"}', "err"),
+             ("duplicate type on a shortcut", '@A | @B // {type: "mixed", type: "mixed"}', "err"),
+             ("duplicate type", '1 // {type: "integer", type: "integer"}', "err"),
+             ("redundant type mixed on a union shortcut", '@A | @B // {type: "mixed"}', "ok")]
+    for rs in ('{type: "email", min: 1}', '{type: "email", minItems: 1}', '{type: "date", additionalProperties: true}', '{type: "uri", max: 1}', '{type: "decimal", precision: 1, minLength: 2}',
+               '{type: "decimal", precision: 1, minItems: 1}', "{min: 1, minItems: 2}", "{precision: 1, minLength: 2}", '{regex: "a", max: 3}', '{type: "uuid", regex: "a"}', '{type: "string", min: 1}',
+               '{type: "integer", minLength: 1}', '{type: "array", min: 1}', '{type: "object", minItems: 1}', '{type: "boolean", max: 1}'):
+        typed.append(("inapplicable rule inside an or rule-set", '"b" // {or: [%s, {type: "string"}]}' % rs, "err"))
+        typed.append(("inapplicable rule inside an or rule-set", '"b" // {or: [{type: "string"}, %s]}' % rs, "err"))
+    for rs in ('{type: "email"}', '{type: "integer", min: 1}', '{type: "string", minLength: 1, regex: "b"}', '{type: "decimal", precision: 2}', '{type: "array", minItems: 0}', '{type: "object", additionalProperties: true}', "{min: 1, max: 3}", "{minLength: 1}"):
+        typed.append(("applicable rules inside an or rule-set", '"b" // {or: [%s, {type: "string"}]}' % rs, "ok"))
+    touts = vc.impl(["schema"], [json.dumps({"schema": sc, "types": TY, "ops": [["check"]]}) for _, sc, _ in typed])
+    for (label, sc, want), o in zip(typed, touts):
+        r = json.loads(o)[0]
+        ctx.evaluations += 1
+        if ("ok" if r == "ok" else "err") != want and len(ctx.violations) < 40:
+            ctx.report("%s: Check of %r says %s, the statement says %s" % (label, sc[:120], r, want), "c08t:" + sc, {"schema": sc, "types": TY, "implementation": r, "expected": want, "case": label}, case=sc)
+    ctx.extra["typed_cases"] = len(typed)
     ctx.extra["table_cases"] = len(items)
     # ---- order independence ----
     pool = {
